@@ -163,6 +163,16 @@ def co_result(f):
     return f._res
 
 
+def co_call(obj, name, *a, **k):
+    """call obj.<name>: its generator co-version when the object's class has one, else the plain method (atomic)"""
+    f = getattr(obj, '_co_' + name, None)
+    if f is None:
+        return getattr(obj, name)(*a, **k)
+        yield   # noqa  (makes this a generator function)
+    r = yield from f(*a, **k)
+    return r
+
+
 def co_event_wait(ev):
     while not ev.flag:
         yield ('blocked', ev)
@@ -254,8 +264,9 @@ class CoTransformer(ast.NodeTransformer):
         f = node.func
         if isinstance(f, ast.Attribute):
             if isinstance(f.value, ast.Name) and f.value.id == 'self' and f.attr in self.co_names:
-                f.attr = '_co_' + f.attr
-                return ast.YieldFrom(node)
+                call = ast.Call(ast.Name('co_call', ast.Load()), [f.value, ast.Constant(f.attr)] + node.args,
+                                node.keywords)
+                return ast.YieldFrom(call)
             if f.attr == 'acquire' and _is_lock_expr(f.value) and not node.args:
                 return ast.YieldFrom(ast.Call(ast.Name('co_acquire', ast.Load()), [f.value], []))
             if f.attr == 'wait' and _is_lock_expr(f.value):
@@ -273,7 +284,7 @@ class CoTransformer(ast.NodeTransformer):
 def make_co(cls, names, module, shared=None):
     """install _co_<name> generator versions of the listed methods on cls; returns the names that were found"""
     ns = dict(vars(module))
-    ns.update(co_acquire=co_acquire, co_wait=co_wait, co_get=co_get, co_event_wait=co_event_wait, co_result=co_result)
+    ns.update(co_acquire=co_acquire, co_wait=co_wait, co_get=co_get, co_event_wait=co_event_wait, co_result=co_result, co_call=co_call)
     done = []
     for name in names:
         fn = cls.__dict__.get(name)
@@ -330,9 +341,14 @@ class Scheduler:
     def run(self, gens, on_step=None):
         alive = [True] * len(gens)
         blocked = [False] * len(gens)
+        born = [0] * len(gens)        # scheduler step at which a thread came into existence
         cur = None
         steps = 0
-        while any(alive):
+        while any(alive) or len(gens) > len(alive):
+            while len(alive) < len(gens):      # threads spawned while running (executor model)
+                alive.append(True)
+                blocked.append(False)
+                born.append(steps)
             steps += 1
             if steps > self.max_steps:
                 return 'livelock: step budget exhausted'
@@ -342,10 +358,11 @@ class Scheduler:
             forced = None
             for pi in range(len(self.preempt)):
                 ps, pt = self.preempt[pi]
-                if ps == steps:
-                    for j in cand:
-                        if pt == j:
-                            forced = j
+                # (ps, pt): hand control to thread pt when it has existed for ps scheduling steps (for the initial
+                # threads that is the absolute step number)
+                for j in cand:
+                    if pt == j and ps == steps - born[j]:
+                        forced = j
             if self.pin is not None and self.pin not in cand:
                 self.pin = None       # the preempted-to thread blocked or ended
             if forced is not None:
@@ -371,7 +388,7 @@ class Scheduler:
             except StopIteration:
                 alive[i] = False
                 r = None
-                for j in range(len(gens)):
+                for j in range(len(blocked)):
                     blocked[j] = False
             except SelfDeadlock as e:
                 CUR[0] = 0
@@ -382,7 +399,7 @@ class Scheduler:
             if isinstance(r, tuple) and r and r[0] == 'blocked':
                 blocked[i] = True
             else:
-                for j in range(len(gens)):
+                for j in range(len(blocked)):
                     blocked[j] = False
             if on_step is not None:
                 v = on_step()
